@@ -1,6 +1,6 @@
 (* C02 — no double spend or double resolution. *)
 From Coq Require Import ZArith List Bool.
-From Sia Require Import Prim.Result Prim.Tok Policy.Model Ledger.Types Ledger.Mid Ledger.Validate Ledger.Apply Ledger.Proofs Ledger.Spends Ledger.SpendsV1 Ledger.SpendsSF Ledger.Persist Ledger.Marks1 Ledger.Marks2 Ledger.Marks3 Ledger.Marks4.
+From Sia Require Import Prim.Result Prim.Tok Policy.Model Ledger.Types Ledger.Mid Ledger.Validate Ledger.Apply Ledger.Proofs Ledger.Spends Ledger.SpendsV1 Ledger.SpendsSF Ledger.Persist Ledger.Marks1 Ledger.Marks2 Ledger.Marks3 Ledger.Marks4 Ledger.Marks5 Ledger.Marks6 Ledger.Marks7.
 Import ListNotations.
 Open Scope Z_scope.
 
@@ -123,11 +123,11 @@ Print Assumptions C02_chain_no_rerevise_or_reresolve.
 Theorem C02_consumed_leaf_marked : forall H net vt pt se sd s (kind_of : id -> kind) id0 lf0, kind_of id0 = KSC ->
   forall b s' m t0 i0,
   validate_block H net vt pt se sd s b = Ok tt -> apply_block net s b = Ok (s', m) -> b_txns b = [] -> b_expiring b = [] ->
-  Forall (TxOK kind_of id0 lf0) (b_v2txns b) ->
+  Forall (Marks2.TxOK kind_of id0 lf0) (b_v2txns b) ->
   Forall (fun p : id * sco => kind_of (fst p) = KSC /\ fst p <> id0) (b_payouts b) -> kind_of (b_foundation_id b) = KSC -> b_foundation_id b <> id0 ->
   In t0 (b_v2txns b) -> In i0 (t2_sci t0) -> sce_id (p_val (i2_parent i0)) = id0 -> p_leaf (i2_parent i0) = lf0 -> lf0 <> UNASSIGNED ->
   SpentAt (s_leaves s') (Z.to_nat lf0).
-Proof. exact consumed_leaf_marked. Qed.
+Proof. exact Marks3.consumed_leaf_marked. Qed.
 Print Assumptions C02_consumed_leaf_marked.
 
 (* ... and with persistence: over any accepted chain of v2-only blocks that follows, no accepted transaction has a siacoin
@@ -135,7 +135,7 @@ Print Assumptions C02_consumed_leaf_marked.
 Theorem C02_consumed_never_again : forall H net vt pt se sd (kind_of : id -> kind) id0 lf0 s b s1 m t0 i0 bs s',
   kind_of id0 = KSC ->
   validate_block H net vt pt se sd s b = Ok tt -> apply_block net s b = Ok (s1, m) -> b_txns b = [] -> b_expiring b = [] ->
-  Forall (TxOK kind_of id0 lf0) (b_v2txns b) ->
+  Forall (Marks2.TxOK kind_of id0 lf0) (b_v2txns b) ->
   Forall (fun p : id * sco => kind_of (fst p) = KSC /\ fst p <> id0) (b_payouts b) -> kind_of (b_foundation_id b) = KSC -> b_foundation_id b <> id0 ->
   In t0 (b_v2txns b) -> In i0 (t2_sci t0) -> sce_id (p_val (i2_parent i0)) = id0 -> p_leaf (i2_parent i0) = lf0 -> lf0 <> UNASSIGNED ->
   chain H net vt pt se sd s1 bs s' ->
@@ -144,11 +144,37 @@ Theorem C02_consumed_never_again : forall H net vt pt se sd (kind_of : id -> kin
     (forall i, In i (t2_sfi t) -> p_leaf (f2_parent i) <> UNASSIGNED -> Z.to_nat (p_leaf (f2_parent i)) <> Z.to_nat lf0) /\
     (forall rv, In rv (t2_rev t) -> Z.to_nat (p_leaf (r2_parent rv)) <> Z.to_nat lf0) /\
     (forall rs, In rs (t2_res t) -> Z.to_nat (p_leaf (rs_parent rs)) <> Z.to_nat lf0).
-Proof. exact consumed_never_again. Qed.
+Proof. exact Marks4.consumed_never_again. Qed.
 Print Assumptions C02_consumed_never_again.
 
 (* the slot map stays consistent through every transaction (no out-of-range slot, hence no index panic, on such blocks) *)
 Theorem C02_slot_map_consistent : forall (kind_of : id -> kind) id0 lf0, kind_of id0 = KSC -> forall net s m t m',
-  TxOK kind_of id0 lf0 t -> apply_txn2 net s m t = Ok m' -> Marks1.Good kind_of id0 lf0 m -> Marks1.Good kind_of id0 lf0 m'.
-Proof. exact apply_txn2_good. Qed.
+  Marks2.TxOK kind_of id0 lf0 t -> apply_txn2 net s m t = Ok m' -> Marks1.Good kind_of id0 lf0 m -> Marks1.Good kind_of id0 lf0 m'.
+Proof. exact Marks2.apply_txn2_good. Qed.
 Print Assumptions C02_slot_map_consistent.
+
+(* the same for siafund elements *)
+Theorem C02_consumed_siafund_leaf_marked : forall H net vt pt se sd s (kind_of : id -> kind) id0 lf0, kind_of id0 = KSF ->
+  forall b s' m t0 i0,
+  validate_block H net vt pt se sd s b = Ok tt -> apply_block net s b = Ok (s', m) -> b_txns b = [] -> b_expiring b = [] ->
+  Forall (Marks6.TxOK kind_of id0 lf0) (b_v2txns b) ->
+  Forall (fun p : id * sco => kind_of (fst p) = KSC) (b_payouts b) -> kind_of (b_foundation_id b) = KSC ->
+  In t0 (b_v2txns b) -> In i0 (t2_sfi t0) -> sfe_id (p_val (f2_parent i0)) = id0 -> p_leaf (f2_parent i0) = lf0 -> lf0 <> UNASSIGNED ->
+  SpentAt (s_leaves s') (Z.to_nat lf0).
+Proof. exact consumed_sf_leaf_marked. Qed.
+Print Assumptions C02_consumed_siafund_leaf_marked.
+
+Theorem C02_consumed_siafund_never_again : forall H net vt pt se sd (kind_of : id -> kind) id0 lf0 s b s1 m t0 i0 bs s',
+  kind_of id0 = KSF ->
+  validate_block H net vt pt se sd s b = Ok tt -> apply_block net s b = Ok (s1, m) -> b_txns b = [] -> b_expiring b = [] ->
+  Forall (Marks6.TxOK kind_of id0 lf0) (b_v2txns b) ->
+  Forall (fun p : id * sco => kind_of (fst p) = KSC) (b_payouts b) -> kind_of (b_foundation_id b) = KSC ->
+  In t0 (b_v2txns b) -> In i0 (t2_sfi t0) -> sfe_id (p_val (f2_parent i0)) = id0 -> p_leaf (f2_parent i0) = lf0 -> lf0 <> UNASSIGNED ->
+  chain H net vt pt se sd s1 bs s' ->
+  forall mm t, validate_txn2 H net vt pt se sd s' mm t = Ok tt ->
+    (forall i, In i (t2_sci t) -> p_leaf (i2_parent i) <> UNASSIGNED -> Z.to_nat (p_leaf (i2_parent i)) <> Z.to_nat lf0) /\
+    (forall i, In i (t2_sfi t) -> p_leaf (f2_parent i) <> UNASSIGNED -> Z.to_nat (p_leaf (f2_parent i)) <> Z.to_nat lf0) /\
+    (forall rv, In rv (t2_rev t) -> Z.to_nat (p_leaf (r2_parent rv)) <> Z.to_nat lf0) /\
+    (forall rs, In rs (t2_res t) -> Z.to_nat (p_leaf (rs_parent rs)) <> Z.to_nat lf0).
+Proof. exact consumed_sf_never_again. Qed.
+Print Assumptions C02_consumed_siafund_never_again.
